@@ -191,7 +191,10 @@ class C03Episode(Episode):
             # polling step
             deadline = t0 + g + POLL + self.slack(
                 ep, kills[0][3] if kills else w.sim.steps)
-            alive_at_g = dead_at is None or dead_at > t0 + g + POLL
+            # (a worker that died inside the slack - the daemon was busy or
+            # blocked when its polling step was due - may never have been
+            # seen alive after the grace period)
+            alive_at_g = dead_at is None or dead_at > deadline
             if alive_at_g and ep['s'] != 9 and not ep['zombie_at_t0']:
                 if not kills:
                     if now > deadline + 1.0 and not w.daemon_gone():
